@@ -1018,6 +1018,20 @@ package tcell
 //@   ensures [recorded] !t.focusEnabled
 //@   modifies t.focusEnabled, t.buf, t.Mutex
 
+// EnableMouse folds its variadic flags with OR (all three classes when none is given), records the result for Resume
+// and applies exactly that.
+//@ spec rec orFlags(s []MouseFlags, n int) MouseFlags = n <= 0 ? MouseFlags(0) : orFlags(s, n-1) | s[n-1]
+//@ func (*tScreen).EnableMouse
+//@   arith bv
+//@   let want = len(flags) == 0 ? (MouseMotionEvents | MouseDragEvents | MouseButtonEvents) : orFlags(flags, len(flags))
+//@   ensures [recorded] t.mouseFlags == want
+//@   ensures [applied-once] calls(enableMouse) == 1
+//@   calls [applied] call(enableMouse, recv, fl, ret) ==> fl == want
+//@   loop 1:
+//@     invariant [fold] -1 <= rangeindex && rangeindex < len(flags) && f == orFlags(flags, rangeindex + 1) && flagsPresent == (rangeindex >= 0)
+//@     decreases len(flags) - rangeindex
+//@   modifies t.mouseFlags, t.buf, t.Mutex
+
 //@ func (*tScreen).DisableMouse
 //@   arith math
 //@   ensures [recorded] t.mouseFlags == 0
